@@ -216,21 +216,17 @@ def _f2(clause: str, case: Any) -> bool:
     return bool(bad) and all(O.r_shrunk_merge(case["hits"], o) for o in bad)
 
 
-def _drop_reasons(clause: str, case: Any) -> Optional[list[set[str]]]:
+def _f5(clause: str, case: Any) -> bool:
+    """ every input hit that vanished without justification lost to an at-least-as-good overlapping competitor
+        which is itself absent from the observed output for an accountable reason (justified by the output,
+        or beaten in turn): the winner of the comparison was replaced / filtered afterwards """
     if _base(clause) != "refine/dropped-only-if-justified" or not _is_refine(case):
-        return None
+        return False
     idxs = _observed(case, "unjustified")
-    if not isinstance(idxs, list) or not idxs:
-        return None
-    reasons = [O.r_explain_unjustified(case["hits"], case["lens"], case["mode"], i) for i in idxs]
-    return reasons if all(reasons) else None
-
-
-def _drop_class(name: str) -> Callable[[str, Any], bool]:
-    def pred(clause: str, case: Any) -> bool:
-        reasons = _drop_reasons(clause, case)
-        return reasons is not None and any(name in r for r in reasons)
-    return pred
+    out = _observed(case, "out")
+    if not isinstance(idxs, list) or not idxs or not isinstance(out, list):
+        return False
+    return all(O.r_lost_to_vanished_competitor(case["hits"], case["lens"], out, i) for i in idxs)
 
 
 def _f6(clause: str, case: Any) -> bool:
@@ -299,9 +295,10 @@ def _f11(clause: str, case: Any) -> bool:
 FINDING_CLASSES: dict[str, Callable[[str, Any], bool]] = {
     "C13-F1": _f1,
     "C13-F2": _f2,
-    "C13-F3": _drop_class("shrunk"),
-    "C13-F4": _drop_class("far"),
-    "C13-F5": _drop_class("transitive"),
+    # C13-F3 / C13-F4 (hits lost through the cut-back merge / the forgotten chain) were consequences of
+    # repaired defects at the drop clause; they have no input class of their own any more: a regression
+    # shows up unclassified at refine/dropped-only-if-justified and in the replay of their witnesses
+    "C13-F5": _f5,
     "C13-F6": _f6,
     "C13-F7": _f7,
     "C13-F8": _f8,
